@@ -173,7 +173,8 @@ def check_program(label: str, src: str, acc: Acc, horizon: int, raising: bool = 
             o2 = comp.run(envs[tag], Chooser(tuple(ch.choices), horizon))
             acc.traces += 1
             if o2 != obs:
-                kind = "outcome" if o2[0] == obs[0] else "calls"
+                from .c07 import diff_signature
+                kind = diff_signature(obs, o2)
                 report(f"interpretation-differs/{tag}/{kind}",
                        f"answers {list(ch.choices)}: function -> {obs[1]!r} after {len(obs[0])} calls; graph -> {o2[1]!r} after {len(o2[0])} calls",
                        answers=list(ch.choices), function=repr(obs), graph=repr(o2))
